@@ -5,11 +5,11 @@ package props
 // row per construct) equals the rows of the schema; two runs give the same relations.
 
 import (
-	"regexp"
 	"context"
 	"encoding/json"
 	"fmt"
 	"io"
+	"regexp"
 	"sort"
 	"strings"
 	"time"
